@@ -186,13 +186,12 @@ def run_gate(binp, seed, only=None, limit=0):
 
 
 def confirm_gate(binp, seed, r, pred):
-    """Re-run one scenario twice; the finding stands if it shows again at least once."""
-    again = 0
+    """Re-run one scenario (at most twice); the finding stands as soon as it shows again."""
     for k in range(2):
         rr = run_gate(binp, seed + 1 + k, only=r["scen"]["id"])
         if rr and pred(rr[0]):
-            again += 1
-    return again >= 1
+            return True
+    return False
 
 
 def run_free(binp, seed, n):
